@@ -255,7 +255,7 @@ func (x *Exec) execConvert(st *State, v Val, from, to types.Type) Val {
 	ts, ok2 := x.sortOf(to)
 	if !ok1 || !ok2 {
 		// []byte(string) etc.
-		if _, ok := to.Underlying().(*types.Slice); ok {
+		if _, ok := under(to).(*types.Slice); ok {
 			s := st.freshVal(to, "conv").(*SliceV)
 			if ft, ok := v.(Term); ok && ft.Sort == sStr {
 				st.assume(tEq(s.Len, app(sBV(64), nil, "str_len", ft)))
